@@ -13,6 +13,7 @@ ALL = replay.ALL_ACTS
 NO_INDEX = [a for a in ALL if a != "Index"]
 
 PUSHED = ["Index", "Take", "Rechunk"]
+INPLACE_ACTS = ["Index", "Elemwise", "Rechunk", "Transpose", "SetItem", "MaskSet", "OutUfunc"]
 CHAIN = ["Index", "Rechunk", "Transpose", "Elemwise", "Reduce"]
 
 # Compositions excluded from the deep corpora.  Every pair is tied to a finding recorded in
@@ -38,6 +39,12 @@ CORPORA = {
     "d2-push3": dict(acts=ALL, acts2=PUSHED, maxlen=2, preset="lean3", sim=False, lean=True, excl=EXCL_DEEP, workers=4),
     # three-step chains of structural operations and pushed-down operations
     "d3-chain1": dict(acts=CHAIN, maxlen=3, preset="lean1", sim=False, lean=True, excl=EXCL_DEEP, workers=8),
+    # in-place histories: derive, mutate in place, derive (C11, C04)
+    "d3-inplace1": dict(acts=INPLACE_ACTS, maxlen=3, preset="lean1", sim=False, lean=True, workers=8),
+    "d2-inplace1-all": dict(acts=INPLACE_ACTS, maxlen=2, preset="lean1", sim=False, lean=True, workers=4, observe_all=True),
+    "d2-inplace2-all": dict(acts=INPLACE_ACTS, maxlen=2, preset="lean2", sim=False, lean=True, workers=8, observe_all=True),
+    "d2-inplace2": dict(acts=INPLACE_ACTS, maxlen=2, preset="lean2", sim=False, lean=True, workers=8),
+    "d2-inplace3": dict(acts=INPLACE_ACTS, maxlen=2, preset="lean3", sim=False, lean=True, workers=8),
     # slice / rechunk chains (what gets composed and pushed into sources)
     "d3-sr1": dict(acts=["Index", "Rechunk"], maxlen=3, preset="lean1", sim=False, lean=True, workers=4),
 }
@@ -72,6 +79,7 @@ def run_plans(chk, rd, plans, observers, *, opts=None, module="Trace_Obs", shard
     evs, refs, stats = [], {}, {}
     for name, maxvar, stride in plans:
         kw = dict(CORPORA[name])
+        observe_all = kw.pop("observe_all", False)
         t0 = _t.time()
         behs, res = replay.generate_programs(rundir=rd, timeout=3000, **kw)
         t_gen = _t.time() - t0
@@ -80,7 +88,7 @@ def run_plans(chk, rd, plans, observers, *, opts=None, module="Trace_Obs", shard
         picked = stride_sample(behs, stride, chk.seed)
         del behs
         o = dict(opts)
-        if kw["maxlen"] > 1 and "last_only" not in o:
+        if kw["maxlen"] > 1 and "last_only" not in o and not observe_all:
             o["last_only"] = True      # the prefixes are programs of the shallower corpora
         t0 = _t.time()
         out = replay.run_corpus(picked, observers=observers, max_variants=maxvar, seed=chk.seed, opts=o)
